@@ -20,7 +20,9 @@ ALPHABET = "0123456789abfxoul_+-. g"
 FN = {1: "align", 2: "check_range", 3: "swap16", 4: "get_bytes_cnt_of_int", 5: "value_to_int", 6: "value_to_bytes(int)",
       7: "value_to_bytes(str)", 8: "align_block", 9: "extend_block", 10: "swap32", 11: "reverse_bytes_in_longs",
       12: "change_endianness", 13: "swap_bytes", 14: "reverse_bits", 15: "BcdVersion3.from_str/__str__",
-      16: "BinaryPattern.get_block", 17: "BcdVersion3(major, minor, service)", 18: "BcdVersion3.to_version"}
+      16: "BinaryPattern.get_block", 17: "BcdVersion3(major, minor, service)", 18: "BcdVersion3.to_version",
+      19: "SecBootBlckSize.is_aligned", 20: "SecBootBlckSize.align", 21: "SecBootBlckSize.to_num_blocks",
+      22: "SecBootBlckSize.align_block_fill_zeros"}
 
 
 # ------------------------------------------------------------------ independent spec oracles
@@ -247,7 +249,7 @@ def to_model_expr(case):
         args[2] = VI(0) if args[2][1] == -1 else args[2]
     if fn in (6, 7):
         args[2] = VI(0) if args[2][1] == -1 else args[2]
-    return f"run_case_ext {fn} [{'; '.join(vlib.coq_lit(a) for a in args)}]"
+    return f"run_case_blk {fn} [{'; '.join(vlib.coq_lit(a) for a in args)}]"
 
 
 def same(impl, model):
@@ -266,7 +268,7 @@ def run(tier):
     except (Untranslatable, Exception) as ex:  # noqa
         rep.obligation("translate:spsdk/utils/misc.py->Gen/GenMisc.v", False, repr(ex))
     # (P) proofs
-    model_ok, _ = vlib.coq_make(["Model/MiscModel.vo", "Model/MiscExtModel.vo"])
+    model_ok, _ = vlib.coq_make(["Model/MiscModel.vo", "Model/MiscExtModel.vo", "Model/MiscBlkModel.vo"])
     vlib.check_theorems(rep, PID, THEOREMS, ["Proofs/MiscProofs.vo"] + c20_ext.NEW_DEPS)
     if tier == "thorough":
         vlib.coqchk(rep, PID, THEOREMS)
@@ -294,7 +296,7 @@ def run(tier):
     ndis = 0
     if model_ok:
         try:
-            model_res = vlib.run_model_cases("c20", "Value MiscModel MiscExtModel", [to_model_expr(c) for c in flat], shard=700)
+            model_res = vlib.run_model_cases("c20", "Value MiscModel MiscExtModel MiscBlkModel", [to_model_expr(c) for c in flat], shard=700)
             for c, ri, rm in zip(flat, impl_res, model_res):
                 if not same(ri, rm):
                     ndis += 1
